@@ -292,7 +292,7 @@ def run(ctx):
                 for st, cls in r["errors"].items():
                     err_hist[f"sweep:{name}:{cls}"] += 1
                 for v in r["violations"]:
-                    mism.append(dict(oracle_fail=True, part="alias-sweep", operand_layout=layout, op=name, **v))
+                    mism.append(dict(oracle_fail=True, part="alias-sweep", operand_layout=layout, sweep_op=name, **v))
     evaluations += sweep_runs
     extra.update(alias_sweep_operators=len(sweep), alias_sweep_runs=sweep_runs, alias_sweep_rejected=sweep_rej,
                  alias_sweep_kinds=dict(collections.Counter(e["tree"]["k"] for e in sweep)),
